@@ -26,6 +26,7 @@ import (
 //	        real udp.ForwardUserConn + udp.Forwarder, loopback sockets, channels joined through
 //	        real msg.WriteMsg / ReadMsgInto / ReadMsg over a net.Pipe (as the two UDPProxy types do)
 //	        => B=<u.seq.len.hash,...>;U0=<...>;...;socks=<n>;mixed=<0|1>;ferr=<n>
+//	e2e …   see eng_udp_e2e.go;  sudp …   see eng_udp_sudp.go
 //
 // payload of datagram #seq of user u with (len, seed): ['Q', u, seq>>8, seq&255] ++ lcg(seed) bytes;
 // the backend answers ['A', u, seqhi, seqlo] ++ (b+1 mod 256 for the rest).
@@ -153,8 +154,10 @@ func udpExec(tok []string) string {
 			}
 		}
 		return res + "rd=ok;rt=" + rt
-	case "e2e":
+	case "e2e", "e2es":
 		return e2eExec(tok)
+	case "sudp":
+		return sudpExec(tok)
 	case "tunnel":
 		ps := atoi(strings.TrimPrefix(tok[1], "ps="))
 		k := atoi(strings.TrimPrefix(tok[2], "k="))
@@ -594,4 +597,16 @@ func udpGen(rng *rand.Rand, n int, emit func(string)) {
 	// in the middle of small ones
 	emit(fmt.Sprintf("tunnel ps=9000 k=2 d=0.100.%d,1.200.%d,0.8000.%d,1.300.%d,0.120.%d,1.50.%d",
 		rng.Intn(1<<30), rng.Intn(1<<30), rng.Intn(1<<30), rng.Intn(1<<30), rng.Intn(1<<30), rng.Intn(1<<30)))
+	// (c) the sudp visitor (client/visitor/sudp.go) against a scripted peer, with connection loss
+	sudpGen(rng, n, emit)
+	// (d) sudp end to end: real visitor + frps + sudp proxy (two pairs: plain, encrypted+compressed)
+	e2esGen := func(ps int, enc, comp int, k, nd, maxLen int) {
+		genTunnel(rng, ps, k, nd, maxLen, func(l string) {
+			emit(strings.Replace(l, fmt.Sprintf("tunnel ps=%d ", ps), fmt.Sprintf("e2es ps=%d enc=%d comp=%d ", ps, enc, comp), 1))
+		})
+	}
+	for i := 0; i < n/3000+1; i++ {
+		e2esGen(1500, 0, 0, 1+rng.Intn(5), 30+rng.Intn(100), 1500)
+		e2esGen(1500, 1, 1, 1+rng.Intn(5), 30+rng.Intn(100), 1500)
+	}
 }
